@@ -229,6 +229,7 @@ def truthy(v, st=None):
 class Exec:
     def __init__(self, handlers, attr_kinds=None, inline=None, module_funcs=None):
         self.handlers = handlers          # callee pattern -> handler(ex, st, call_node, recv, args, kwargs, k, K)
+        for nm_ in ('BaseException.__setattr__', 'object.__setattr__'): self.handlers.setdefault(nm_, _h_setattr)
         self.attr_kinds = attr_kinds or {}  # "message.args" -> 'list' ...
         self.module_funcs = module_funcs or {}
         self.npaths = 0
@@ -738,6 +739,12 @@ def _h_dict_setdefault(ex, st, e, d, args, kw, k, K):
     r = If(h.dhas[d.addr][kx], h.dval[d.addr][kx], dv)
     h.dval = Store(h.dval, d.addr, Store(h.dval[d.addr], kx, r)); h.dhas = Store(h.dhas, d.addr, Store(h.dhas[d.addr], kx, True)); return k(st, r)
 _DICT_METHODS = {'get': _h_dict_get, 'setdefault': _h_dict_setdefault}
+def _h_setattr(ex, st, e, recv, args, kw, k, K):
+    """BaseException.__setattr__(obj, 'name', value) / object.__setattr__(...): the attribute store `obj.name = value` made with the base class's setter (it
+    cannot be intercepted by the object's own class); routed through the executor's own assignment so that a unit's model of that store applies"""
+    if len(e.args) != 3 or not (isinstance(e.args[1], ast.Constant) and isinstance(e.args[1].value, str)): raise Unsupported("__setattr__ with a computed attribute name: " + ast.unparse(e))
+    tgt = ast.copy_location(ast.Attribute(value=e.args[0], attr=e.args[1].value, ctx=ast.Store()), e)
+    return ex.assign(tgt, args[2], st, lambda s: k(s, None), K)
 class MergeFail(Exception): pass
 def _merge_vals(conds, vals):
     """ite-join of python-side values under mutually exclusive guards `conds`"""
@@ -810,7 +817,14 @@ def raise_any(st, base):
     """freshly allocated exception object of some (unknown, registered) subclass of `base`"""
     st.heap = st.heap.copy(); a = st.heap.next; st.heap.next = a + 1
     st.pc.append(CLS.sub_expr(st.heap.cls_of[a], base)); mark_exception(st, Val.ref(a)); return Val.ref(a)
-def noop(ex, st, e, recv, args, kw, k, K): return k(st, None)
+def noop(ex, st, e, recv, args, kw, k, K):
+    # used for logger.* calls: a logging call does not raise (handler errors are swallowed by logging itself) - EXCEPT that Logger.makeRecord raises KeyError
+    # when `extra` holds a key named like a LogRecord attribute ("module", "name", "args", "message", ...). A computed `extra` is therefore not a no-op.
+    if isinstance(e, ast.Call) and any(k_.arg == 'extra' and not (isinstance(k_.value, ast.Dict) and all(isinstance(x, ast.Constant) and isinstance(x.value, str) and x.value not in _LOGRECORD_ATTRS for x in k_.value.keys)) for k_ in e.keywords):
+        raise Unsupported("logging call with a computed `extra=`: Logger.makeRecord raises KeyError for keys that collide with LogRecord attributes: " + ast.unparse(e)[:80])
+    return k(st, None)
+_LOGRECORD_ATTRS = {'name', 'msg', 'args', 'levelname', 'levelno', 'pathname', 'filename', 'module', 'exc_info', 'exc_text', 'stack_info', 'lineno', 'funcName', 'created', 'msecs',
+                    'relativeCreated', 'thread', 'threadName', 'processName', 'process', 'message', 'asctime', 'taskName'}
 def opaque(name):
     def h(ex, st, e, recv, args, kw, k, K): return k(st, fresh(name))
     return h
